@@ -63,7 +63,9 @@ def roOfJson (j : Json) : R Rollout := do
            disabled := ← fBool j "disabled", deleting := ← fBool j "deleting", hasFinalizer := ← fBool j "hasFinalizer",
            hasTraffic := ← fBool j "hasTraffic", disableGen := ← fBool j "disableGen", rollbackInBatch := ← fBool j "rollbackInBatch",
            grace := ← fNat j "grace", phase := phaseOf (← fStr j "phase"), reason := reasonOf (← fStr j "reason"),
-           condAge := ageOf (← fStr j "condAge"), succeeded := succ, term := termOf (← fStr j "term"), sub := sub }
+           condAge := ageOf (← fStr j "condAge"), succeeded := succ, term := termOf (← fStr j "term"), sub := sub,
+           -- absent in lines written before the canary-style worlds existed: the CloneSet rollout
+           realPartition := ← (match jopt j "realPartition" with | none => pure true | some b => jbool b) }
 /-- output canonicalisation shared with the harness: an illegal next-step index is shown corrected
     (whether the in-memory correction is also persisted depends on unrelated status fields) -/
 def normNext (r : Rollout) : Rollout :=
@@ -76,14 +78,19 @@ def roToJson (r0 : Rollout) : Json :=
     ("paused", boolJ r.paused), ("disabled", boolJ r.disabled), ("deleting", boolJ r.deleting), ("hasFinalizer", boolJ r.hasFinalizer),
     ("hasTraffic", boolJ r.hasTraffic), ("disableGen", boolJ r.disableGen), ("rollbackInBatch", boolJ r.rollbackInBatch),
     ("grace", natJ r.grace), ("phase", strJ (phaseStr r.phase)), ("reason", strJ (reasonStr r.reason)), ("condAge", strJ "ignored"),
-    ("succeeded", optJ boolJ r.succeeded), ("term", strJ (termStr r.term)), ("sub", optJ subToJson r.sub)]
+    ("succeeded", optJ boolJ r.succeeded), ("term", strJ (termStr r.term)), ("sub", optJ subToJson r.sub),
+    ("realPartition", boolJ r.realPartition)]
 
 def wlOfJson (j : Json) : R WL := do
-  return { consistent := ← fBool j "consistent", inProgressAnno := ← fBool j "inProgressAnno", canaryRev := ← fStr j "canaryRev",
-           stableRev := ← fStr j "stableRev", inRollback := ← fBool j "inRollback", replicas := ← fInt j "replicas", generation := ← fInt j "generation" }
+  let canaryRev ← fStr j "canaryRev"
+  return { consistent := ← fBool j "consistent", inProgressAnno := ← fBool j "inProgressAnno", canaryRev := canaryRev,
+           stableRev := ← fStr j "stableRev", inRollback := ← fBool j "inRollback", replicas := ← fInt j "replicas", generation := ← fInt j "generation",
+           -- absent in lines written before the canary-style worlds existed: the CloneSet's update revision
+           podTemplateHash := ← (match jopt j "podTemplateHash" with | none => pure canaryRev | some x => jstr x) }
 def wlToJson (w : WL) : Json :=
   mkObj [("consistent", boolJ w.consistent), ("inProgressAnno", boolJ w.inProgressAnno), ("canaryRev", strJ w.canaryRev),
-    ("stableRev", strJ w.stableRev), ("inRollback", boolJ w.inRollback), ("replicas", intJ w.replicas), ("generation", intJ w.generation)]
+    ("stableRev", strJ w.stableRev), ("inRollback", boolJ w.inRollback), ("replicas", intJ w.replicas), ("generation", intJ w.generation),
+    ("podTemplateHash", strJ w.podTemplateHash)]
 
 def brOfJson (j : Json) : R BR := do
   return { batches := ← (← fArrD j "batches").mapM iosOfJson, partition := ← fOptInt j "partition", rolloutID := ← fStr j "rolloutID",
@@ -101,6 +108,30 @@ def worldOfJson (j : Json) : R World := do
   let br ← (match jopt j "br" with | none => pure none | some x => do pure (some (← brOfJson x)))
   return { ro := ← roOfJson (← jget j "ro"), wl := wl, br := br, net := ← netOfJson (← jget j "net"), mem := ← memOfJson (← jget j "mem") }
 
+/-- classification of the canary-style (`IsRealPartition = false`) worlds for the distribution statistics -/
+def canaryStyleTags (w : World) : List String :=
+  match w.ro.style with
+  | .blueGreen => ["wk:blueGreen"]
+  | .canary =>
+    if w.ro.realPartition then ["wk:partition"] else
+    "wk:canaryStyle" ::
+    (match w.ro.sub, w.wl with
+     | some s, some wl =>
+       (match w.ro.steps[(s.curIdx - 1).toNat]? with
+        | some st =>
+          let rolling := w.ro.phase = .progressing && w.ro.reason = .inRolling && !w.ro.deleting && wl.consistent
+          let full := decide (scaledV st.replicas wl.replicas true ≥ wl.replicas)
+          let traffic := w.ro.hasTraffic && stepHasTraffic st
+          (if rolling && s.state = .init && traffic && decide (s.curIdx = 1) then
+             [if full then "cs:first-init-traffic-full" else "cs:first-init-traffic-part"] else []) ++
+          (if rolling && s.state = .init && traffic && decide (s.curIdx ≠ 1) then
+             [if full then "cs:later-init-traffic-full" else "cs:later-init-traffic-part"] else []) ++
+          (if rolling && s.state = .upgrade && traffic then
+             [if full then "cs:upgrade-traffic-full" else "cs:upgrade-traffic-part"] else []) ++
+          (if wl.podTemplateHash = "" then ["cs:nopodhash"] else if wl.podTemplateHash = wl.canaryRev then ["cs:podhash=canary"] else ["cs:podhash-other"])
+        | none => [])
+     | _, _ => [])
+
 def handle : Handler := fun op inp impl => do
   match op with
   | "reconcile" =>
@@ -109,8 +140,10 @@ def handle : Handler := fun op inp impl => do
       match w.ro.sub with | some s => s!"state:{stateStr s.state}" | none => "nosub",
       if w.wl.isSome then "wl" else "nowl", if w.br.isSome then "br" else "nobr",
       if w.ro.hasTraffic then "traffic" else "notraffic", match w.ro.style with | .canary => "canary" | .blueGreen => "blueGreen"]
+      ++ canaryStyleTags w
     let implPanic := (jopt impl "panic").isSome
     let mut holds := [("C09.rollout_no_panic", !implPanic || RV.Oracle.RolloutSM.corrupted w)]
+    let mut tags := tags
     -- oracles on the implementation's resulting world
     if !implPanic then
       match jopt impl "w" with
@@ -123,7 +156,8 @@ def handle : Handler := fun op inp impl => do
         let w' : World := { ro := ro', wl := wl', br := br', net := ← netOfJson (← jget iw "net"), mem := ← memOfJson (← jget iw "mem") }
         let r : StepResult := { w := w', roGone := gone, requeue := ← fBool impl "requeue", err := ← fBool impl "err",
                                 writes := if w'.br == w.br && w'.net == w.net && w'.wl == w.wl then [] else ["changed"] }
-        holds := holds ++ RV.Oracle.RolloutSM.stepOracles w r
+        holds := holds ++ RV.Oracle.RolloutSM.stepOracles w r ++ RV.Oracle.RolloutSM.canaryStyleOracles w r
+        if RV.Oracle.RolloutSM.firstStepLeft w r then tags := tags ++ ["cs:first-step-left-init"]
       | none => pure ()
     match reconcile w with
     | .panic => return { model := mkObj [("panic", strJ "?")], holds := holds, tags := "panic" :: tags }
